@@ -181,6 +181,10 @@ func TestC02(t *testing.T) {
 	idx := 0
 	gate := newReplayGate(r, "C02", w.Root, w.Dir, false, 101, 7)
 	defer gate.Stop()
+	gate1000 := newReplayGateArgs(r, "C02", "-buf1000", w.Root, w.Dir, false, 5, 1, "--buffer-size=1000")
+	defer gate1000.Stop()
+	gate0 := newReplayGateArgs(r, "C02", "-buf0", w.Root, w.Dir, false, 5, 1, "--buffer-size=0")
+	defer gate0.Stop()
 	run := func(o c02Obj, reqs []Req) {
 		idx++
 		if !r.Mine(idx) {
@@ -288,6 +292,12 @@ func TestC02(t *testing.T) {
 					reqs := []Req{open, mk(crit, g), mk(!crit, g)}
 					m := mkModel()
 					res := runSession(t, SrvOpts{Root: w.Root, BufSize: bs}, m, reqs, Delivery{})
+					switch bs {
+					case 1000:
+						gate1000.maybe(mkModel(), reqs, res, sprintf("%s --buffer-size=1000", o.path), nil)
+					case -1:
+						gate0.maybe(mkModel(), reqs, res, sprintf("%s --buffer-size=0", o.path), nil)
+					}
 					r.Transition(int64(len(res.Steps)))
 					r.Eval(1)
 					key := sprintf("%s|bufsize%d|%s", o.path, bs, strings.Join(reqStrings(reqs), ","))
